@@ -24,6 +24,7 @@ def run(ctx):
         B = jobtask.Bodies(ctx, "R07.1")
         jobrules.message_flag(ctx, B)
         jobrules.holder_discipline(ctx, B)
+        jobrules.flag_identity(ctx, B, "R07.2")     # `done` in a handler is the control's flag, never the same-named job-gone flag
         jobrules.task_exit(ctx, B)
         jobrules.recv_gating(ctx, B, "R07.7")
     except Skip:
